@@ -101,7 +101,10 @@ def run(ctx):
         # the same division written as a plain loop in the function body
         dvb = [st.bb for st in b.stmts() if st.bb in lblocks and st.k == "assign" and st.rv.k == "binop" and st.rv.j["op"] == "Div" and st.rv.ty == "f64"]
         ab = fl.atom_block(a)
-        okn = bool(sq) and (bool(dv) or bool(dvb)) and all(b.dominates(t.bb, ab) for t in sq[:1] + dv[:1]) and (bool(dv) or any(b.dominates(x, ab) or x in lblocks for x in dvb))
+        # a division inside an inner loop does not dominate the test (the loop may run zero times); what matters is
+        # that within one iteration of the outer loop it comes BEFORE the test and never after it
+        before = [x for x in dvb if ab in b.reachable_from(x, avoid=(hdr.bb,)) and x not in b.reachable_from(ab, avoid=(hdr.bb,))]
+        okn = bool(sq) and (bool(dv) or bool(before)) and all(b.dominates(t.bb, ab) for t in sq[:1] + dv[:1]) and (bool(dv) or len(before) == len(dvb))
         ctx.require(okn, "R-C18-1", "normalised", "sqrt-of-sum normalisation and the division of every entry dominate the convergence test", "the returned vector is not (always) normalised before the convergence test (sqrt calls %d, dividing passes %d)" % (len(sq), len(dv)), loc_str(s.span))
     # the other exit
     kinds = errorkind_sites(b)
